@@ -33,7 +33,7 @@ from prompt_toolkit.utils import get_cwidth
 ID = "C11"
 DRIVER = "drv_c11"
 PROPS = ["Ptk.Props.C11Scroll", "Ptk.Props.C11Copy", "Ptk.Props.C11Lines", "Ptk.Props.C11Window",
-         "Ptk.Props.C11Rows", "Ptk.Props.C11Procs", "Ptk.Props.C11Doc", "Ptk.Props.C11"]
+         "Ptk.Props.C11Rows", "Ptk.Props.C11Procs", "Ptk.Props.C11Doc", "Ptk.Props.C11Exact", "Ptk.Props.C11"]
 ANCHORS = ["src/prompt_toolkit/layout/containers.py", "src/prompt_toolkit/layout/controls.py",
            "src/prompt_toolkit/layout/processors.py", "src/prompt_toolkit/layout/margins.py",
            "src/prompt_toolkit/layout/screen.py", "src/prompt_toolkit/utils.py"]
@@ -75,14 +75,14 @@ ASSUMPTIONS = ["float: window_size / 2 is exact and int() truncates toward zero 
                "theorems: any prefix-width function with width < window width",
                "no get_vertical_scroll / get_horizontal_scroll callbacks, align = LEFT, no menus / floats",
                "theorems assume every cell is one column wide (get_cwidth = Char.width = 1)"]
-PARTIAL_SCOPE = ["wide and zero-width characters: correspondence + oracle only, theorems assume one-column cells (known "
-                 "finding on the unfixed tree: the wrapped height estimate ignores the early wrapping of wide "
-                 "characters; repaired by proposed_fixes/C11-wide-wrap-height.diff, which the model follows "
-                 "through a probed flag)",
-                 "raw control characters (TAB without TabsProcessor, ^X): drawn 2 cells wide but measured 0 by the "
-                 "scroll code (known finding; repaired by proposed_fixes/C11-control-char-width.diff, probed flag); "
-                 "with a TabsProcessor tabs are covered by the theorems",
-                 "a zero-width character under the cursor has no cell of its own (known finding, own class)",
+PARTIAL_SCOPE = ["wide and zero-width characters: correspondence + oracle only, the theorems about the code as it is "
+                 "assume one-column cells (KNOWN finding: the wrapped height estimate ignores the early wrapping of "
+                 "double-width characters; repair proposed_fixes/C11-wide-wrap-height.diff NOT applied, its model "
+                 "variant is proved exact for all cell widths in Props/C11Exact and would be selected by a probed flag)",
+                 "raw control characters (TAB without TabsProcessor, ^X): since fix 9db5f12 measured as drawn (2 cells); "
+                 "with wrapping they then share the double-width KNOWN finding; with a TabsProcessor tabs are covered "
+                 "by the theorems",
+                 "a zero-width character under the cursor has no cell of its own (KNOWN finding, own class)",
                  "ShowLeading/TrailingWhiteSpaceProcessor, highlight processors (identity maps) not modelled",
                  "NumberedMargin: only its width is modelled, not the margin text",
                  "get_vertical_scroll / get_horizontal_scroll callbacks, align != LEFT, menus, floats not modelled"]
